@@ -1138,3 +1138,14 @@ int sim_proc_live_tasks(SimProc *p) {
     return n;
 }
 off_t __real_lseek(int, off_t, int);
+
+/* ---------------- conformance-suite helpers ---------------- */
+int sim_connect_would_block(const char *path) {
+    FsNode *nd = simfs_lookup(path);
+    return nd && nd->kind == 1 && nd->listener && nd->listener->naccept > nd->listener->backlog;
+}
+SimProc *sim_spawn_child_fn(const char *role, void *(*fn)(void *), void *arg) {
+    SimProc *p = sim_spawn_fn(role, fn, arg, now_us);
+    p->ppid = cur->p->pid;
+    return p;
+}
